@@ -50,8 +50,8 @@ def modulo_counter(start=0., modulo=256., step=1.):
   to continue iteration.
   """
   if isinstance(start, Iterable):
-    lastp = 0.
-    c = 0.
+    lastp = 0 # Integers: exact inputs (int, Fraction, ...) stay exact, as
+    c = 0     # they do when "start" is a number
     if isinstance(step, Iterable):
       if isinstance(modulo, Iterable):
         for p, m, s in xzip(start, modulo, step):
